@@ -850,20 +850,27 @@ def run_c15(rep, tier, seed):
             rep.sample({"max": mx, "events": [list(e) for e in events][:20], "script": script[:20], "answers": ans[:20]})
     # transient failures of accept(2) (EMFILE when descriptors run out for a moment, ECONNABORTED when the peer has already
     # gone): the listener retries with its back-off (up to four failures in a row are within it); none of the attempts may cost
-    # a slot. Injected by the LD_PRELOAD layer; no theorem of the LTS speaks about a failing accept, the expectation is the
-    # property's own (limit holds, no slot leaks).
+    # a slot (ConnLimit's `acceptFail` steps, theorem c15_accept_failure_free). Injected by the LD_PRELOAD layer; who is served
+    # when is asked of the LTS.
     for (mx, k, errno) in ([(2, 3, 24), (4, 4, 103)] if tier == "quick" else [(1, 1, 24), (2, 3, 24), (3, 2, 103), (4, 4, 24), (4, 4, 103), (8, 4, 24)]):
         script = [f"srv.start max={mx} mfs=1000000", f"io.failaccepts {k} {errno}", "c.open t", f"c.send t {GET_PROBE}", "c.read t 1 5000", "io.failedaccepts", "c.close t", "sleep 150"]
-        exp = {4: "N", 5: str(k)}
+        # who is served when: the LTS with its `acceptFail` steps (ids: t = 1000, s_i = i, q = 2000)
+        mlines = [f"cl.init {mx}", f"cl.acceptfail {k}", "cl.connect 1000", "cl.finish 1000"] + [f"cl.connect {i}" for i in range(mx)] + ["cl.connect 2000", "cl.finish 0"]
+        mans = run_driver(mlines)
+        srv = [set() if a.split(" ")[1] == "-" else set(int(x) for x in a.split(" ")[1].split(",")) for a in mans]
+        exp = {4: "N" if 1000 in srv[2] else "timeout", 5: str(k)}
         for i in range(mx):
             script += [f"c.open s{i}", f"c.send s{i} {GET_PROBE}", f"c.read s{i} 1 5000"]
-            exp[len(script) - 1] = "N"
+            exp[len(script) - 1] = "N" if i in srv[4 + i] else "timeout"
         script += ["c.open q", f"c.send q {GET_PROBE}", "c.read q 1 300"]
-        exp[len(script) - 1] = "timeout"
+        exp[len(script) - 1] = "N" if 2000 in srv[4 + mx] else "timeout"
         script += ["c.close s0", "c.read q 1 5000"]
-        exp[len(script) - 1] = "N"
+        exp[len(script) - 1] = "N" if 2000 in srv[5 + mx] else "timeout"
         script += ["srv.alive", "srv.stop"]
         exp[len(script) - 2] = "alive"
+        if not (exp[4] == "N" and all(exp[8 + 3 * i + 2] == "N" for i in range(mx)) and exp[8 + 3 * mx + 2] == "timeout" and exp[8 + 3 * mx + 4] == "N"):
+            rep.violation("correspondence", dict(what="the connection-limit LTS does not predict `all of max_connections served, the next one waits` after failed accepts", script=mlines, answers=mans))
+            continue
         shutil.rmtree(root, ignore_errors=True)
         try:
             ans = run_harness(["net", "--root", root, "--hang-ms", "30000"], script, preload=True, timeout=120)
